@@ -498,6 +498,26 @@ class Exec(ExprMixin, CallMixin):
             for nm, src in ci.items():
                 t = self.truth(self._spec_eval(src))
                 self.ctx.oblige(f"crash:{self.contract.qualname}:{nm}@{what}", t, kind="crash", line=getattr(node, "lineno", None))
+        # rely (DESIGN 2.5, restricted form): what the environment / other tasks may have done while we were suspended
+        rely = self.contract.ghost.get("rely") if self.inline_depth == 0 else None
+        if rely:
+            c = self.ctx
+            for key in rely.get("havoc", []):
+                cls, f = key.split(".")
+                self.heap_arr(key, self.reg.classes[cls].fields[f])
+            frame = OldFrame(dict(c.heap), dict(c.globals_), {k: SV(v.ty, v.t) for k, v in c.locals.items() if v.t is not None})
+            for key in rely.get("havoc", []):
+                cls, f = key.split(".")
+                c.heap[key] = c.fresh_term(c.heap[key].sort(), "Hy_" + f)
+            self.frames.append(frame)
+            sm = self.spec_mode
+            self.spec_mode = True
+            try:
+                for src in rely.get("assume", []):
+                    c.assume(self.truth(self.eval(parse_expr(src))))
+            finally:
+                self.spec_mode = sm
+                self.frames.pop()
         if self.timeout_depth > 0 and self.catchable("TimeoutError"):
             if self.ctx.choose(2, f"timeout@{getattr(node, 'lineno', '?')}") == 1:
                 raise PyRaise(SExc("TimeoutError"))
@@ -804,8 +824,8 @@ class Exec(ExprMixin, CallMixin):
                     # defaultdict reads insert: handled as writes of the dict
                     d = dotted(n.func)
                     ct = None
-                    if isinstance(n.func, ast.Attribute):
-                        # method with contract?
+                    if isinstance(n.func, ast.Attribute) and not (n.func.attr in MUTATORS and not (isinstance(n.func.value, ast.Attribute) and n.func.value.attr == "mailbox")):
+                        # method with contract?  (container mutators like .add/.remove are handled above unless the receiver is the MH folder)
                         for q, cc in self.reg.contracts.items():
                             if cc.fname == n.func.attr and (cc.cls is not None or d == q):
                                 ct = cc
@@ -969,11 +989,15 @@ class Exec(ExprMixin, CallMixin):
             same_obj = self.self_sv is not None and "self" in bound and z3.eq(z3.simplify(bound["self"].t), z3.simplify(self.self_sv.t))
             if ct.uses_invariant and "self" in bound and ct.cls in self.reg.classes and same_obj:
                 for k, e in self.reg.classes[ct.cls].invariant.items():
+                    if k in ct.ghost.get("inv_except", []):
+                        continue
                     pres.append(("inv:" + k, self.truth(self.eval(parse_expr(e)))))
             self.spec_mode = sm
-            assume_pre = ct.fname in (self.cur_contract.ghost.get("assume_pre_of") or [])
+            ap = self.cur_contract.ghost.get("assume_pre_of") or []
             for k, t in pres:
                 if not sm:
+                    # assumed either wholesale (list form) or clause by clause (dict form: callee -> [clause names])
+                    assume_pre = (ct.fname in ap) if isinstance(ap, list) else (k in ap.get(ct.fname, []))
                     if assume_pre:
                         c.assume(t)  # environment assumption, listed in the caller's contract (ghost.assume_pre_of) and in the evidence
                     else:
@@ -1027,6 +1051,12 @@ class Exec(ExprMixin, CallMixin):
                     gpre = [self.truth(self.eval(parse_expr(r))) for r in ct.ghost.get("ghost_requires", {}).values()]
                     t = z3.ForAll(gvars, z3.Implies(z3.And(*gpre), t) if gpre else t)
                 c.assume(t)
+            if ct.keeps_invariant and "self" in bound and ct.cls in self.reg.classes:
+                # the callee is proved to re-establish its class invariant
+                for k, e in self.reg.classes[ct.cls].invariant.items():
+                    if k in ct.ghost.get("inv_except", []):
+                        continue
+                    c.assume(self.truth(self.eval(parse_expr(e))))
             return SV(res.ty, res.t)
         finally:
             self.spec_mode = sm
